@@ -274,6 +274,25 @@ def materialising_indices(eng, st, evs):
     return out
 
 
+_ENTRY = {}
+
+
+def own_stack(prog, stack, ep_func):
+    """is the innermost operation on the call stack the entry point itself?  (a shared private helper
+    - `row.put(..)` - is reached both from draw and, inside draw, from insert_characters: what ICH
+    stores through it is ICH's business, not draw's)"""
+    from . import runner
+    key = id(prog)
+    if key not in _ENTRY:
+        _ENTRY[key] = set(runner.SCREEN_FNS) | set(runner.listener_entry_points(prog))
+    ent = _ENTRY[key]
+    last = None
+    for f in stack:
+        if f in ent:
+            last = f
+    return last is None or last == ep_func
+
+
 def is_cursor_attr(eng, st, v):
     pv = getattr(v, 'prov', None)
     if isinstance(pv, tuple) and pv == ('cursor.attr',):
